@@ -161,6 +161,7 @@ pub fn run(ctx: &Ctx) -> Report {
                         let mut v2 = base.clone();
                         v2.push(Op::IntoOwned);
                         v2.push(Op::Clone);
+                        v2.push(Op::CloneFrom(1));
                         let mut v3 = Vec::new();
                         for o in base {
                             v3.push(o.clone());
